@@ -362,6 +362,27 @@ def c17Visit (cfg : LeafCfg) (scr : LeafScript) (seg : List Ev) : Bool :=
                | _ => if r.isError then b == r.box else b == r.valueOf))
       | _ => false)
 
+/-- **C17**, the clause `c17Visit` leaves open when a fallback event is present: if the LAST exec attempt of the visit returned
+    without an error (a value — also an error `Result` handed on as a value), post receives THAT, whether or not a fallback was
+    invoked in between (on the real code none is: a fallback is only ever called after an attempt that returned an error, so on
+    every trace of the unchanged code this predicate says what `c17Visit` says; it is evaluated on the model's own observation
+    too — `specModel` — and has no bridge theorem). -/
+def c17ExecKept (cfg : LeafCfg) (scr : LeafScript) (seg : List Ev) : Bool :=
+  let p := split seg
+  if p.execs.isEmpty then true else
+  match okVal (scr.exec (p.execs.length - 1)) with
+  | none => true
+  | some x =>
+    let r : Result := if cfg.execS = .res then toResult x else newResult x
+    p.posts.all fun e =>
+      match e with
+      | .post _ _ _ _ b =>
+        (match cfg.postS with
+         | .res => b == r.box
+         | .any => b == r.valueOf
+         | _ => if r.isError then b == r.box else b == r.valueOf)
+      | _ => false
+
 /-- **C17**, when the FALLBACK produced the exec-phase result: post receives the prep payload and the value the
     fallback returned, seen through post's style (wrapped once for a Result-style post, as it is for the others) —
     this run's value, not anything an earlier run or attempt left behind. -/
